@@ -20,7 +20,7 @@ ASSUMPTIONS = ['numbers are sampled: all code-length boundaries every second run
                'coverage.covered_sets.number_blocks reports how many of the 1000 blocks that partition 1..10^6 were decoded completely in this batch (the thorough tier reaches all of them with '
                'overwhelming probability, the quick tier about a fifth); the placement of Z and the label lists are sampled']
 COVER_SETS = {'number_blocks': (1000, 'blocks [1000b+1, 1000b+1000] of step numbers, every number of which was encoded by R4, decoded by the real converter under every hash seed of the run and came back as itself')}
-PROBES = ['mandatory_ge2', 'mandatory_ge3', 'empty_label_list', 'z_used', 'number_ge_621', 'number_ge_15621', 'multi_line_layout']
+PROBES = ['mandatory_ge2', 'mandatory_ge3', 'empty_label_list', 'z_used', 'number_ge_621', 'number_ge_15621', 'multi_line_layout', 'same_proof_text_twice']
 BOUNDARIES = [1, 19, 20, 21, 22, 39, 40, 41, 119, 120, 121, 122, 140, 141, 619, 620, 621, 622, 3119, 3120, 3121, 15619, 15620, 15621, 78120, 78121, 390620, 390621, 999999, 1000000]
 
 
@@ -73,10 +73,21 @@ def build(sc):
             letters += 'Z'
             expected_applied.append(0)
     db.target = ('goal', target, None)
+    decoy = False
+    if rng.random() < 0.3:
+        # an earlier theorem with the same proof text over other (or the same, reordered) variables: its label table differs
+        dvs = rng.sample(db.vars, rng.randint(1, min(3, len(db.vars))))
+        dt = ('v', dvs[-1])
+        for v in reversed(dvs[:-1]):
+            dt = ('\\imp', ('v', v), dt)
+        dt = ('\\imp', dt, dt)
+        if dt != target:
+            db.decoys = [('decoy', dt)]
+            decoy = True
     layout_rng = random.Random(sc['gen_seed'] ^ 0x5a5a) if rng.random() < 0.6 else None
     text = db.text(['('] + labels + [')'] + ([letters] if letters else []), layout_rng=layout_rng)
     expected_labels = {str(i + 1): l for i, l in enumerate(mand + labels)}
-    return text, expected_labels, expected_applied, {'mand': len(mand), 'maxn': max(nums), 'z': 'Z' in letters, 'empty': not labels, 'layout': layout_rng is not None, 'block': block}
+    return text, expected_labels, expected_applied, {'mand': len(mand), 'maxn': max(nums), 'z': 'Z' in letters, 'empty': not labels, 'layout': layout_rng is not None, 'block': block, 'decoy': decoy}
 
 
 def execute(sc, ctx):
@@ -94,6 +105,7 @@ def execute(sc, ctx):
     if info['maxn'] >= 621: out.probe('number_ge_621')
     if info['maxn'] >= 15621: out.probe('number_ge_15621')
     if info['layout']: out.probe('multi_line_layout')
+    if info.get('decoy'): out.probe('same_proof_text_twice')
     out.nontrivial = info['mand'] >= 2 or len(exp_applied) >= 8
     cls = 1 if info['maxn'] <= 20 else 2 if info['maxn'] <= 120 else 3 if info['maxn'] <= 620 else 4 if info['maxn'] <= 3120 else 5
     out.transitions.add('%d/%d/%s/%s' % (info['mand'], cls, info['z'], info['empty']))
